@@ -666,6 +666,12 @@ theorem shape_checks_before_writes :
     checksFirst (inlineSuper Gen.linkDataFrameBody Gen.rangeLinkDataFrameBody) = true ∧
     checksFirst Gen.removeLinkBody = true ∧ checksFirst Gen.ticksSetterBody = true := by decide
 
+/-- both link methods test the file of the object they are given (HDF5 has no hard links between files) among the
+checks that stand before their first write: an object of another file is refused with the descriptor untouched -/
+theorem shape_link_tests_file_first :
+    LStmt.checkSameFile ∈ Gen.linkDataArrayBody.takeWhile (fun st => !st.isWrite) ∧
+    LStmt.checkSameFile ∈ Gen.linkDataFrameBody.takeWhile (fun st => !st.isWrite) := by decide
+
 /-- the writes of the generated `link_data_array` (for a range dimension: of the `RangeDimension`
 wrapper around it) are the model's `attachLink`: old link removed, link group created with the type
 "DataArray", then — range only — the ticks dropped -/
